@@ -151,7 +151,8 @@ def get_count__total_expansion__c2c_expansion(length, total_expansion, c2c_expan
             f"\n\tCell-to-cell expansion ratio: {c2c_expansion}"
         )
 
-    return int(count) + 1
+    # an exact power (total = c2c ** k) must keep its cell: the quotient of the logarithms can end a rounding error below k
+    return int(count + constants.TOL) + 1
 
 
 def get_count__total_expansion__start_size(length, total_expansion, start_size):
